@@ -238,7 +238,7 @@ Proof.
   unfold Z.sub. rewrite inject_Z_plus, inject_Z_opp. reflexivity.
 Qed.
 Lemma as_num_ok v x : as_num v = Some x -> is_ok x = true.
-Proof. destruct v as [[| |]| | |]; cbn; intros H; inversion H; reflexivity. Qed.
+Proof. destruct v as [[| |]| | | |]; cbn; intros H; inversion H; reflexivity. Qed.
 Lemma nadd_ok a b : is_ok a = true -> is_ok b = true -> is_ok (nadd a b) = true.
 Proof. destruct a, b; cbn; intros; try discriminate; reflexivity. Qed.
 Lemma const_last_sum sum acc out : is_ok sum = true -> is_ok acc = true ->
